@@ -70,6 +70,7 @@ Definition check_bits (s : kvstore) (obs : list (N * N * option bytes)) : bool :
 Inductive case :=
 | CLogs (t : table) (logs : list (N * list N * bytes)) (bloom : sparse) (tests : list (N * bool * list N))
 | CKeys (h i s : N) (k1 k2 : bytes)
+| CKeyPair (i1 s1 i2 s2 : N) (k1 k2 : bytes)   (* two consecutive builds, both results read after the second *)
 | CComp (d c : bytes)
 | CDecomp (data : bytes) (target : N) (res : option bytes)
 | CIndex (blooms : list (N * sparse)) (sec : N) (bits : list (N * option bytes))
@@ -97,6 +98,9 @@ Definition case_ok (c : case) : bool :=
                    eqb (bloom_test K (item i) bloom') r && list_eqb N.eqb (bloom_positions K (item i)) ps
                    && eqb (forallb (bloom_bit bloom') ps) r end) tests
   | CKeys h i s k1 k2 => bytes_eqb (bloom_key h) k1 && bytes_eqb (bloom_bits_key i s) k2
+  | CKeyPair i1 s1 i2 s2 k1 k2 =>
+      (* the key is a pure function of (bit, section): a later build does not change an earlier result *)
+      bytes_eqb (bloom_bits_key i1 s1) k1 && bytes_eqb (bloom_bits_key i2 s2) k2
   | CComp d c =>
       bytes_eqb (compress_bytes d) c && opt_eqb bytes_eqb (decompress_bytes c (length d)) (Some d)
   | CDecomp data target res => opt_eqb bytes_eqb (decompress_bytes data (N.to_nat target)) res
